@@ -385,6 +385,12 @@ class ProvRecord(object):
                 value = self._auto_literal_conversion(literal.value)
             if value is not None:
                 return value
+            if isinstance(literal.datatype, QualifiedName):
+                # the literal is kept as it is: make sure the namespace of its
+                # datatype is known to the bundle (and gets declared on export)
+                datatype = self._bundle.valid_qualified_name(literal.datatype)
+                if datatype is not literal.datatype:
+                    literal = Literal(literal.value, datatype)
 
         # No conversion possible, return the original value
         return literal
